@@ -28,6 +28,7 @@ import (
 
 	"github.com/dappledger/AnnChain/eth/log"
 	"github.com/dappledger/AnnChain/eth/metrics"
+	"github.com/dappledger/AnnChain/gemmill/modules/verifhook"
 	"github.com/syndtr/goleveldb/leveldb"
 	"github.com/syndtr/goleveldb/leveldb/errors"
 	"github.com/syndtr/goleveldb/leveldb/filter"
@@ -115,6 +116,9 @@ func (db *LDBDatabase) Path() string {
 
 // Put puts the given key / value to the queue
 func (db *LDBDatabase) Put(key []byte, value []byte) error {
+	if err := verifhook.BeforeWrite("ethdb.Put"); err != nil {
+		return err
+	}
 	return db.db.Put(key, value, nil)
 }
 
@@ -160,6 +164,9 @@ func (db *LDBDatabase) Get(key []byte) ([]byte, error) {
 
 // Delete deletes the key from the queue and database
 func (db *LDBDatabase) Delete(key []byte) error {
+	if err := verifhook.BeforeWrite("ethdb.Delete"); err != nil {
+		return err
+	}
 	return db.db.Delete(key, nil)
 }
 
@@ -413,6 +420,9 @@ func (b *ldbBatch) Delete(key []byte) error {
 }
 
 func (b *ldbBatch) Write() error {
+	if err := verifhook.BeforeWrite("ethdb.BatchWrite"); err != nil {
+		return err
+	}
 	return b.db.Write(b.b, nil)
 }
 
